@@ -160,7 +160,7 @@ TxStep(S, tx, cd, sn, post) ==
   IF w = 0
   THEN \* read-only: a candidate linearization point of a request
        [S |-> S, cand |-> cd,
-        snaps |-> IF tx.bg = "" THEN AddTo(sn, tx.o, [S |-> S, dt |-> tx.dt]) ELSE sn, drift |-> ""]
+        snaps |-> IF tx.bg = "" THEN AddTo(sn, tx.o, [S |-> S, dt |-> tx.dt, ro |-> TRUE]) ELSE sn, drift |-> ""]
   ELSE LET prim == tx.cmds[w]
            fired == prim.rows > 0 IN
     IF tx.bg = ""
@@ -170,7 +170,7 @@ TxStep(S, tx, cd, sn, post) ==
          ELSE LET rq == reqs[tx.o] IN
            IF ~ fired
            THEN [S |-> F14Effect(S, tx, w), cand |-> cd,
-                 snaps |-> AddTo(sn, tx.o, [S |-> S, dt |-> tx.dt]), drift |-> ""]
+                 snaps |-> AddTo(sn, tx.o, [S |-> S, dt |-> tx.dt, ro |-> FALSE]), drift |-> ""]
            ELSE IF rq.kind \in {"SearchPromises", "SearchSchedules"}
            THEN [S |-> IF prim.k = "UpdatePromise" THEN TimeoutP(S, prim.id, tx.dt) ELSE S,
                  cand |-> cd, snaps |-> sn, drift |-> ""]
@@ -314,15 +314,19 @@ BodiesOf(kind, b) ==
 
 \* The clock readings tau at which body is the level-A answer of request rq at one of its
 \* linearization points (empty set: the reply is not linearizable).
+\* What a coroutine does with the result of a READ it decides at the tick at which it is resumed
+\* with it; when that is a reply, the reply tick t.  A guarded write that affected nothing was
+\* decided when it was yielded (dt).
+Ticks(s, t) == IF s.ro THEN {t} ELSE {s.dt, t}
 SearchTicks(r, rq, body, t) ==
   IF rq.kind = "SearchPromises"
-  THEN {tt \in UNION {{s.dt, t} : s \in GetOr(snaps, r, {})} :
-          \E s \in GetOr(snaps, r, {}) : tt \in {s.dt, t}
+  THEN {tt \in UNION {Ticks(s, t) : s \in GetOr(snaps, r, {})} :
+          \E s \in GetOr(snaps, r, {}) : tt \in Ticks(s, t)
              /\ CursorStart(s.S.porder, rq.args.cursor) >= 0
              /\ SearchOverdueHits(s.S, rq.args, idc, tt) = {}
              /\ SearchPromisesRes(s.S, rq.args, idc) = body}
-  ELSE {tt \in UNION {{s.dt, t} : s \in GetOr(snaps, r, {})} :
-          \E s \in GetOr(snaps, r, {}) : tt \in {s.dt, t} /\
+  ELSE {tt \in UNION {Ticks(s, t) : s \in GetOr(snaps, r, {})} :
+          \E s \in GetOr(snaps, r, {}) : tt \in Ticks(s, t) /\
              \/ CursorStart(s.S.sorder, rq.args.cursor) < 0
              \/ LET ids == SearchSchedulesIds(s.S, rq.args, idc) IN
                 /\ [i \in DOMAIN body.schedules |-> body.schedules[i].id] = ids
@@ -343,9 +347,9 @@ LinTicks(r, rq, body, t) ==
                        LET cr == ClaimRead(s.S, The(body.task))
                        IN cr.root = body.root /\ cr.leaf = body.leaf}}
        \cup
-       {tt \in UNION {{s.dt, t} : s \in GetOr(snaps, r, {})} :
+       {tt \in UNION {Ticks(s, t) : s \in GetOr(snaps, r, {})} :
            /\ body.status # CREATED
-           /\ \E s \in GetOr(snaps, r, {}) : tt \in {s.dt, t} /\
+           /\ \E s \in GetOr(snaps, r, {}) : tt \in Ticks(s, t) /\
                  LET o == OpClaimTask(s.S, rq.args, tt) IN o.db = s.S /\ core(o.res) = core(body)}
   ELSE {c.t : c \in {c \in GetOr(cand, r, {}) : c.res = body}}
        \cup
@@ -357,8 +361,8 @@ LinTicks(r, rq, body, t) ==
        \* a request that has had its effect is answered from it: a later look at the database (for
        \* example a retry that re-reads its own write) is not a linearization point any more
        (IF Has(cand, r) THEN {}
-        ELSE {tt \in UNION {{s.dt, t} : s \in GetOr(snaps, r, {})} :
-                \E s \in GetOr(snaps, r, {}) : tt \in {s.dt, t} /\
+        ELSE {tt \in UNION {Ticks(s, t) : s \in GetOr(snaps, r, {})} :
+                \E s \in GetOr(snaps, r, {}) : tt \in Ticks(s, t) /\
                    LET o == Op(rq.kind, s.S, rq.args, tt) IN o.db = s.S /\ o.res = body})
 
 FaultStatuses == {STORE_ERROR}
